@@ -1,13 +1,14 @@
 (** Proofs about Model/TableSwap.v (property C02).  Imported and used, never re-proved:
     C05 Proofs/TableCmd.v ([parse_lines_np], [apply_def_np], [bind_np]),
-    C04 Proofs/Ring.v ([ring_of_counts_spec], [ring_of_counts_scan_eq]), Proofs/Pick.v ([rr_pick_ok]),
+    C04 Proofs/WeighF.v ([binary64_never_panics]), Proofs/Ring.v ([ring_of_counts_spec],
+    [ring_of_counts_scan_eq]), Proofs/Pick.v ([rr_pick_ok]),
     C01 Proofs/Watch.v ([watch_keeps_last_good], [watch_quiescent], [run_expected]). *)
 From Coq Require Import String List NArith ZArith Bool Lia Permutation.
 From Flocq Require Import IEEE754.BinarySingleNaN IEEE754.Binary IEEE754.Bits.
 From Fabio Require Import Lib.Outcome Lib.Bytes Model.WtF64 Model.TableCmd Model.RouteText
      Model.Weigh Model.WeighF Model.Ring Model.Pick Model.TableSwap.
 From Fabio Require Model.Lookup Model.Watch Model.ConsulSpec.
-From Fabio Require Proofs.TableCmd Proofs.Ring Proofs.Pick Proofs.Watch.
+From Fabio Require Proofs.TableCmd Proofs.Ring Proofs.Pick Proofs.Watch Proofs.WeighF.
 Import ListNotations.
 
 (* ====================================================================================== *)
@@ -162,48 +163,20 @@ Definition perm_order (order : list (nat * Z) -> list (nat * Z)) : Prop :=
 Lemma zsum_counts_is cs : zsum_counts cs = Proofs.Ring.zsum cs.
 Proof. reflexivity. Qed.
 
-Lemma fixed_ok_no_fixed fixed : has_fixed fixed = false -> fixed_ok fixed = true.
-Proof.
-  intros H. unfold fixed_ok, F_C02_negative_slots, F_C02_empty_ring, too_many_slots. now rewrite H.
-Qed.
+(** the one size assumption: a route has at most 3*10^9 targets (C04's bound: 10^4 slots per target
+    must stay below what make accepts) *)
+Definition size_ok (fixed : list f64) : Prop := (Z.of_nat (length fixed) <= 3000000000)%Z.
 
-Lemma fixed_ok_counts fixed : has_fixed fixed = true -> fixed_ok fixed = true ->
-  Forall (fun n => 0 <= n)%Z (counts_of fixed)
-  /\ (0 < zsum_counts (counts_of fixed) <= 2^45)%Z.
-Proof.
-  unfold fixed_ok, F_C02_negative_slots, F_C02_empty_ring, too_many_slots. intros -> H.
-  cbn [andb] in H. apply andb_true_iff in H. destruct H as [H Hbig].
-  apply andb_true_iff in H. destruct H as [Hneg Hemp].
-  apply negb_true_iff in Hneg, Hemp, Hbig.
-  assert (Hall : Forall (fun n => 0 <= n)%Z (counts_of fixed)).
-  { apply Forall_forall. intros n Hn.
-    destruct (n <? 0)%Z eqn:E; [|lia].
-    exfalso. assert (existsb (fun n => n <? 0)%Z (counts_of fixed) = true)
-      by (apply existsb_exists; now exists n). congruence. }
-  split; [exact Hall|].
-  assert (Hfa : forallb (fun n => 0 <=? n)%Z (counts_of fixed) = true).
-  { apply forallb_forall. intros n Hn. rewrite Forall_forall in Hall. specialize (Hall n Hn). lia. }
-  rewrite Hfa in Hemp. cbn [andb] in Hemp.
-  pose proof (Proofs.Ring.zsum_nonneg _ Hall) as Hnn. rewrite <- zsum_counts_is in Hnn. lia.
-Qed.
-
-(** weighTargets on a FixedWeight vector outside the regions: no panic, and the ring is the
-    target list itself (no fixed weight) or has sum(counts) > 0 slots *)
-Lemma ring_faithful_ok order fixed : perm_order order -> fixed_ok fixed = true ->
+(** weighTargets on ANY FixedWeight vector of any bit pattern (C04_binary64_never_panics): no panic,
+    no endless probe loop, and a non-empty ring unless the route has no target *)
+Lemma ring_faithful_ok order fixed : perm_order order -> size_ok fixed ->
   exists r, ring_faithful order fixed = Ok r /\ (fixed <> [] -> r <> []).
 Proof.
-  intros Hord Hok. unfold ring_faithful, route_ring.
-  destruct (Nat.eqb (n_fixed arithF fixed) 0) eqn:E0.
-  - eexists. split; [reflexivity|]. intros Hne. destruct fixed; [congruence|]. cbn. discriminate.
-  - assert (Hf : has_fixed fixed = true) by (unfold has_fixed; now rewrite E0).
-    destruct (fixed_ok_counts fixed Hf Hok) as [Hall [Hpos Hle]].
-    fold (counts_of fixed).
-    destruct (Proofs.Ring.ring_of_counts_spec (counts_of fixed) (order (indexed (counts_of fixed))) Hall)
-      as (r & Hr & Hlen & _).
-    { rewrite <- zsum_counts_is. lia. }
-    { apply Hord. }
-    rewrite Hr. cbn [bind]. exists r. split; [reflexivity|]. intros _ ->.
-    cbn [length] in Hlen. rewrite <- zsum_counts_is in Hlen. lia.
+  intros Hord Hsz. unfold ring_faithful. destruct fixed as [|x fixed].
+  - exists []. split; [reflexivity|congruence].
+  - destruct (Proofs.WeighF.binary64_never_panics (x :: fixed) order) as (r & Hr & _ & Hne & _).
+    { cbn [length]. lia. } { exact Hsz. } { exact Hord. }
+    rewrite Hr. exists r. split; [reflexivity|intros _; exact Hne].
 Qed.
 
 (* whatever the weights: weighTargets' model answers a ring or Panic, never an error value *)
@@ -218,8 +191,9 @@ Theorem ring_fast_length order fixed : perm_order order ->
   olen (ring_fast order fixed) = olen (ring_faithful order fixed).
 Proof.
   intros Hord. unfold ring_fast, ring_faithful, route_ring.
-  destruct (Nat.eqb (n_fixed arithF fixed) 0) eqn:E0; [reflexivity|].
-  fold (counts_of fixed). set (cs := counts_of fixed).
+  destruct (uses_fill arithF fixed) eqn:E0; [|reflexivity].
+  assert (Hw : weigh arithF fixed = weigh_unrepaired arithF fixed) by (unfold weigh; now rewrite E0).
+  rewrite Hw. set (cs := map (slot_count arithF) (weigh_unrepaired arithF fixed)).
   destruct (forallb (fun n => 0 <=? n)%Z cs && (zsum_counts cs <=? 2 ^ 45)%Z) eqn:Efast.
   - apply andb_true_iff in Efast. destruct Efast as [Hfa Hle].
     assert (Hall : Forall (fun n => 0 <= n)%Z cs).
@@ -264,7 +238,7 @@ Section BuildProofs.
   Notation ring_routes := (ring_routes rb).
   Notation ring_table := (ring_table rb).
 
-  Definition route_ok (r : route) : Prop := fixed_ok (fixed_of r) = true.
+  Definition route_ok (r : route) : Prop := size_ok (fixed_of r).
 
   Lemma weigh_all_ok rs : Forall route_ok rs -> weigh_all rs = Ok tt.
   Proof.
@@ -607,7 +581,7 @@ Section LookupProofs.
   Proof. unfold lookup_full, F_C02_bad_host_glob. intros ->. reflexivity. Qed.
 End LookupProofs.
 
-Theorem new_table_total_on_domain :
+Theorem new_table_total :
   forall pweight canon glob_ok order text, perm_order order ->
   (forall ds, parse pweight text = Ok ds -> Forall route_ok (reached canon glob_ok [] ds)) ->
   full_build pweight canon glob_ok (ring_faithful order) text <> Panic
@@ -623,7 +597,7 @@ Proof.
            (full_build_keys_ok pweight canon glob_ok order text bt Hbt)).
 Qed.
 
-Theorem custom_build_total_on_domain : forall canon glob_ok order ds t, perm_order order ->
+Theorem custom_build_total : forall canon glob_ok order ds t, perm_order order ->
   Forall route_ok (reached canon glob_ok t (known_defs ds)) ->
   custom_from canon glob_ok (ring_faithful order) t ds <> Panic.
 Proof. intros canon glob_ok order ds t Hord. exact (custom_from_np canon glob_ok order Hord ds t). Qed.
@@ -698,6 +672,17 @@ Section LoopProofs.
   Proof. exact (Proofs.Watch.run_expected btable bo t0 h). Qed.
 End LoopProofs.
 
+(** the update loop over the composed builder never reaches [Crashed]: C01's loop, for every history *)
+Theorem watch_never_crashes pweight canon glob_ok order : perm_order order ->
+  (forall text ds, parse pweight text = Ok ds -> Forall route_ok (reached canon glob_ok [] ds)) ->
+  forall h w,
+    wrun (full_build pweight canon glob_ok (ring_faithful order)) (Running w) h
+    = Running (Watch.run btable (build_opt (full_build pweight canon glob_ok (ring_faithful order))) w h).
+Proof.
+  intros Hord Hsz h w. apply wrun_no_crash. intros c _.
+  exact (proj1 (full_build_total pweight canon glob_ok order Hord c (Hsz c))).
+Qed.
+
 (* the custom backend: an error keeps the table (this is where SetTable's nil guard is relied on),
    a table replaces it, a panic kills the polling goroutine and with it the process *)
 Theorem custom_keeps_last_good cbuild cell ds k : cbuild ds = Err k -> custom_step cbuild cell ds = Some cell.
@@ -728,27 +713,48 @@ Definition nl : str := [10%N].
 Lemma stable_perm : perm_order stable_order.
 Proof. intros s. apply Proofs.Ring.stable_order_perm. Qed.
 
-(* F-C02-1: weight Inf -> NaN weight -> int(NaN) = -2^63 slots -> make panics during the build *)
-Theorem weight_inf_crashes_build :
-  fb_wit (bs "route add s h.com/ http://h/ weight Inf") = Panic.
-Proof. vm_compute. reflexivity. Qed.
+(* the composed builder over weighTargets as it was before /repo 290c777 (C04's route_ring_unrepaired) *)
+Definition fb_wit_weights_unrepaired : str -> outcome btable :=
+  full_build pw_wit canon_wit glob_wit (ring_unrepaired stable_order).
+Definition ok_lookup (o : outcome btable) (host : str) : Prop :=
+  match o with
+  | Ok bt => lookup_full hostglob_wit bt host false (bs "/") Lookup.MPrefix false 0%N
+             = Ok (Some (host, bs "/", 0))
+  | _ => False
+  end.
 
-(* F-C02-3: weight 5e-324 -> scale = 1/5e-324 = +Inf -> weight NaN (0 * Inf) ... -> make panics *)
-Theorem weight_denormal_crashes_build :
-  fb_wit (bs "route add s h.com/ http://h/ weight 5e-324") = Panic.
-Proof. vm_compute. reflexivity. Qed.
+(* F-C02-1 (fixed by 290c777).  Before: weight Inf -> NaN weight -> int(NaN) = -2^63 slots -> make
+   panicked during the build.  Now: the NaN weight is unusable, the traffic is split evenly, the
+   table is built and the lookup answers. *)
+Definition inf_text : str := bs "route add s h.com/ http://h/ weight Inf".
+Theorem weight_inf_crashes_build_unrepaired :
+  fb_wit_weights_unrepaired inf_text = Panic /\ ok_lookup (fb_wit inf_text) (bs "h.com").
+Proof. split; vm_compute; reflexivity. Qed.
 
-(* F-C02-2: 1e308 + 1e308 = +Inf, scale = 0, every weight 0, empty ring: the table is built and
-   installed, then every lookup that reaches the route panics (integer divide by zero) *)
+(* F-C02-3 (fixed by 290c777).  Before: weight 5e-324 -> scale = 1/5e-324 = +Inf -> int() = -2^63 ->
+   make panicked.  Now: even split. *)
+Definition denormal_text : str := bs "route add s h.com/ http://h/ weight 5e-324".
+Theorem weight_denormal_crashes_build_unrepaired :
+  fb_wit_weights_unrepaired denormal_text = Panic /\ ok_lookup (fb_wit denormal_text) (bs "h.com").
+Proof. split; vm_compute; reflexivity. Qed.
+
+(* F-C02-2 (fixed by 290c777).  Before: 1e308 + 1e308 = +Inf, scale = 0, every weight 0, empty ring:
+   the table was built and installed, then every lookup that reached the route panicked (integer
+   divide by zero).  Now: no slot used -> even split, the lookup answers. *)
 Definition overflow_text : str :=
   bs "route add a h.com/ http://a/ weight 1e308" ++ nl ++ bs "route add b h.com/ http://b/ weight 1e308".
-Theorem weight_sum_overflow_crashes_lookup :
-  match fb_wit overflow_text with
+Theorem weight_sum_overflow_crashes_lookup_unrepaired :
+  match fb_wit_weights_unrepaired overflow_text with
   | Ok bt => lookup_full hostglob_wit bt (bs "h.com") false (bs "/") Lookup.MPrefix false 0%N = Panic
              /\ lookup_full hostglob_wit bt (bs "h.com") false (bs "/") Lookup.MPrefix true 0%N = Panic
   | _ => False
   end.
 Proof. vm_compute. split; reflexivity. Qed.
+Theorem weight_sum_overflow_harmless : ok_lookup (fb_wit overflow_text) (bs "h.com").
+Proof. vm_compute. reflexivity. Qed.
+
+Theorem new_table_total_refuted_unrepaired : exists text, fb_wit_weights_unrepaired text = Panic.
+Proof. exists inf_text. exact (proj1 weight_inf_crashes_build_unrepaired). Qed.
 
 (* F-C02-4, fixed by /repo c9fb527.  Before: a host pattern that is no valid glob was accepted by
    NewTable (only the path was compiled); every lookup with glob matching enabled then reached
@@ -777,18 +783,23 @@ Theorem bad_host_glob_keeps_last_good :
   = [Some [bs "h.com"]; Some [bs "h.com"]; Some [bs "h.com"; bs "x.com"]].
 Proof. vm_compute. reflexivity. Qed.
 
-(* the update loop: a good table, then a text with a syntax error (kept out, table unchanged),
-   then the crashing text: the process is gone, although a valid text follows *)
+(* the update loop before 290c777: a good table, then a text with a syntax error (kept out, table
+   unchanged), then the crashing text: the process was gone, although a valid text followed.  Now:
+   the same history installs every valid text. *)
 Definition h_good : str := bs "route add s h.com/ http://h/".
-Theorem watch_crash_refuted :
+Definition crash_history : list Watch.event :=
+  [Watch.Svc h_good; Watch.Man (bs "rout add x"); Watch.Man [];
+   Watch.Svc (bs "route add s g.com/ http://h/ weight Inf"); Watch.Svc h_good].
+Definition show_trace (tr : list proc) : list (option (list str)) :=
   map (fun p => match p with
                 | Running w => Some (map fst (Watch.w_active w))
-                | Crashed => None end)
-      (wtrace fb_wit (Running (Watch.w_init btable []))
-         [Watch.Svc h_good; Watch.Man (bs "rout add x"); Watch.Man [];
-          Watch.Svc (bs "route add s h.com/ http://h/ weight Inf"); Watch.Svc h_good])
-  = [Some [bs "h.com"]; Some [bs "h.com"]; Some [bs "h.com"]; None; None].
-Proof. vm_compute. reflexivity. Qed.
+                | Crashed => None end) tr.
+Theorem watch_crash_refuted_unrepaired :
+  show_trace (wtrace fb_wit_weights_unrepaired (Running (Watch.w_init btable [])) crash_history)
+  = [Some [bs "h.com"]; Some [bs "h.com"]; Some [bs "h.com"]; None; None]
+  /\ show_trace (wtrace fb_wit (Running (Watch.w_init btable [])) crash_history)
+     = [Some [bs "h.com"]; Some [bs "h.com"]; Some [bs "h.com"]; Some [bs "g.com"]; Some [bs "h.com"]].
+Proof. split; vm_compute; reflexivity. Qed.
 
 (* NewTableCustom: an unknown command and an empty source are errors, not crashes *)
 Theorem custom_errors :
@@ -801,26 +812,29 @@ Proof. vm_compute. repeat split; reflexivity. Qed.
 
 (* ---- non-vacuity of the domain theorems: a text with fixed and dynamic weights, a weight
         command and a deletion lies outside every region ---- *)
-Lemma route_ok_forallb l : forallb (fun r => fixed_ok (fixed_of r)) l = true -> Forall route_ok l.
-Proof. intros H. apply Forall_forall. intros r Hr. rewrite forallb_forall in H. exact (H r Hr). Qed.
+Lemma route_ok_forallb l : forallb (fun r => Nat.leb (length (r_targets r)) 1000) l = true -> Forall route_ok l.
+Proof.
+  intros H. apply Forall_forall. intros r Hr. rewrite forallb_forall in H. specialize (H r Hr).
+  apply Nat.leb_le in H. unfold route_ok, size_ok, fixed_of. rewrite map_length. lia.
+Qed.
 
 Definition domain_text : str :=
   bs "route add a h.com/ http://a/ weight 0.3" ++ nl ++ bs "route add b h.com/ http://b/" ++ nl
   ++ bs "route add c h.com/ http://c/ weight 0.2 tags ""x""" ++ nl
   ++ bs "route weight h.com/ weight 0.5 tags ""x""" ++ nl ++ bs "route del a" ++ nl
   ++ bs "route add d *.h.com/p http://d/".
-Example total_on_domain_nonvacuous :
+Example total_nonvacuous :
   (forall ds, parse pw_wit domain_text = Ok ds -> Forall route_ok (reached canon_wit glob_wit [] ds))
-  /\ fb_wit domain_text <> Panic.
+  /\ (exists bt, fb_wit domain_text = Ok bt).
 Proof.
-  assert (H : forall ds, parse pw_wit domain_text = Ok ds -> Forall route_ok (reached canon_wit glob_wit [] ds)).
-  { intros ds Hds. apply route_ok_forallb.
+  split.
+  - intros ds Hds. apply route_ok_forallb.
     assert (E : match parse pw_wit domain_text with
-                | Ok ds => forallb (fun r => fixed_ok (fixed_of r)) (reached canon_wit glob_wit [] ds)
+                | Ok ds => forallb (fun r => Nat.leb (length (r_targets r)) 1000) (reached canon_wit glob_wit [] ds)
                 | _ => false end = true) by (vm_compute; reflexivity).
-    rewrite Hds in E. exact E. }
-  split; [exact H|].
-  apply (full_build_total pw_wit canon_wit glob_wit stable_order stable_perm domain_text H).
+    rewrite Hds in E. exact E.
+  - assert (E : is_ok (fb_wit domain_text) = true) by (vm_compute; reflexivity).
+    destruct (fb_wit domain_text) as [bt| |]; try discriminate. now exists bt.
 Qed.
 
 (* ====================================================================================== *)
